@@ -145,6 +145,8 @@ def inputs_for(dc, budget, ext=None, start=0):
         elif len(s) == L and r[0] == 'fail' and r[1].kind == 'short':
             longest.append(s)
         yield s, r
+    for s in dc.spec.get('extra_inputs', ()):
+        yield s, ref_parse(dc.P, s, start)
     if ext is False or (ext is None and accepted):
         return
     if len(longest) > budget // 4:
